@@ -13,7 +13,7 @@
 From PM.theories Require Import Base Expr Struct FrBaseA FrTcp FrSpecA PduCls PduSpec Pdu CorrPdu Store Exec ExecSpec ExecView Server EndToEnd CorrE2E.
 From PM.Generated Require Import GenFramerA GenPdu.
 From PM.Generated Require GenStore GenExec GenServer.
-From PM.proofs Require Import Struct_proofs Pdu_bits_proofs Pdu_proofs Pdu_dec_proofs.
+From PM.proofs Require Import Struct_proofs Pdu_bits_proofs Pdu_proofs Pdu_dec_proofs Pdu_dec2_proofs.
 From PM.Props Require C01 C03_tcpascii.
 From Coq Require Import ZifyBool.
 Open Scope string_scope.
@@ -268,6 +268,37 @@ Proof.
   - destruct (fc =? 15); cbn [spec_pdu]; rewrite ?app_length; cbn; lia.
   - cbn [spec_pdu]; rewrite ?app_length; cbn; lia.
   - cbn. lia.
+Qed.
+
+(* every byte of a response PDU is a byte (needed by the serial framings, whose builders hex-encode
+   or checksum the payload) *)
+Lemma wfb_app a b : wfb (a ++ b) = wfb a && wfb b.
+Proof. unfold wfb. apply forallb_app. Qed.
+Lemma u16_wfb v : is_u16 v = true -> wfb (u16 v) = true.
+Proof. intros H. unfold is_u16 in H. unfold u16, wfb, byteb. cbn [forallb]. lia. Qed.
+Lemma u8_wfb v : is_u8 v = true -> wfb (u8 v) = true.
+Proof. intros H. unfold is_u8 in H. unfold u8, wfb, byteb. cbn [forallb]. lia. Qed.
+
+Lemma response_pdu_wfb s : spec_wf (spec_response_msg s) = true ->
+  wfb (spec_pdu (spec_response_msg s)) = true.
+Proof.
+  intros Hwf. destruct s as [fc vals|fc a v|fc a q|a am om|fc code]; cbn [spec_response_msg] in *.
+  - assert (Hbits : forall k cs, is_u8 (bit_byte_count (len cs)) = true -> (k < 256)%N ->
+                      wfb ([k] ++ u8 (bit_byte_count (len cs)) ++ spec_pack_bits cs) = true).
+    { intros k cs Hc Hk. rewrite !wfb_app, (u8_wfb _ Hc), spec_pack_bits_wfb. cbn. unfold byteb. lia. }
+    assert (Hregs : forall k rs, is_u8 (2 * len rs) && all_u16 rs = true -> (k < 256)%N ->
+                      wfb ([k] ++ u8 (2 * len rs) ++ words rs) = true).
+    { intros k rs Hc Hk. apply andb_true_iff in Hc as [Hc Hr]. rewrite !wfb_app, (u8_wfb _ Hc), (words_wfb _ Hr).
+      cbn. unfold byteb. lia. }
+    destruct (fc =? 1); [apply Hbits; [exact Hwf|lia]|]. destruct (fc =? 2); [apply Hbits; [exact Hwf|lia]|].
+    destruct (fc =? 3); [apply Hregs; [exact Hwf|lia]|]. destruct (fc =? 4); [apply Hregs; [exact Hwf|lia]|].
+    apply Hregs; [exact Hwf|lia].
+  - destruct (fc =? 5); cbn [spec_wf spec_pdu] in *.
+    + rewrite !wfb_app, (u16_wfb _ Hwf). destruct (coil_on v); reflexivity.
+    + split_andb Hwf. now rewrite !wfb_app, (u16_wfb _ Hwf), (u16_wfb _ Hwf0).
+  - destruct (fc =? 15); cbn [spec_wf spec_pdu] in *; split_andb Hwf; now rewrite !wfb_app, (u16_wfb _ Hwf), (u16_wfb _ Hwf0).
+  - cbn [spec_wf spec_pdu] in *. split_andb Hwf. now rewrite !wfb_app, (u16_wfb _ Hwf), (u16_wfb _ Hwf0), (u16_wfb _ Hwf1).
+  - cbn [spec_wf spec_pdu] in *. split_andb Hwf. unfold is_u8 in *. unfold wfb, byteb. cbn [forallb]. lia.
 Qed.
 
 Theorem packet_spec o ro m :
